@@ -8,7 +8,21 @@ import random
 from . import common as C, proggen as P, progrun as R
 
 PROP = "C08"
-MODULES = ["RuschmProofs.C08"]
+MODULES = ["RuschmProofs.C08", "RuschmProofs.C08Types"]
+
+
+ORDER_PROBES = [
+    (["(define e 0)", "(set! nope-zz (begin (set! e (+ e 1)) e))", "e"], ["N", "E unbound", "V i:1"]),
+    (["(define e 0)", "(define (f) (set! nope-zz (begin (set! e (+ e 1)) e)))", "(f)", "(apply f '())", "(for-each (lambda (q) (f)) '(1))", "e"],
+     ["N", "N", "E unbound", "E unbound", "E unbound", "V i:3"]),
+    (["(define e 0)", "(list (begin (set! e (+ e 1)) 1) (car '()) (begin (set! e (+ e 10)) 2))", "e"], ["N", "E type", "V i:1"]),
+    (["(define e 0)", "(if (begin (set! e 5) (car '())) (set! e 6) (set! e 7))", "e"], ["N", "E type", "V i:5"]),
+    (["(define e 0)", "((lambda () (set! e 1) (undefined-zz) (set! e 2)))", "e"], ["N", "E unbound", "V i:1"]),
+    (["(define e 0)", "(define v (vector 0 0))", "(vector-set! v (begin (set! e 1) 0) (car '()))", "e", "v"], ["N", "N", "E type", "V i:1", "V #m(i:0 i:0)"]),
+    (["(define e 0)", "(set! e (+ e (car '())))", "e"], ["N", "E type", "V i:0"]),
+    (["(define e 0)", "(define (g) (set! e (+ e 1)) e)", "(+ (g) (g) (undefined-zz) (g))", "e"], ["N", "N", "E unbound", "V i:2"]),
+    (["(define e 0)", "((begin (set! e 1) 5) (begin (set! e 2) 0))", "e"], ["N", "E nonProcedure", "V i:2"]),
+]
 
 
 def run(rep, tier, rng):
@@ -58,6 +72,17 @@ def run(rep, tier, rng):
         if tb != tf:
             rep.violation({"what": "observable evaluation trace differs when an unrelated form fails",
                            "program": prog, "ticks_with_fault": tf[:50], "ticks_without": tb[:50]})
+    # what has been completed BEFORE the error stays, in the order R7RS evaluates: operands left to right before the call, the value
+    # of an assignment before the assignment, the test before the arms, earlier body expressions before later ones
+    for k, (forms, want) in enumerate(ORDER_PROBES):
+        r = C.run_hx([("o%d" % k, "prog", ["std"] + forms)]).get("o%d" % k, [])
+        rep.count()
+        rep.nontrivial(("order", tuple(forms)))
+        got = [x if not x.startswith("E ") else "E " + x.split(" ")[1] for x in r]
+        if got != want:
+            j = next((j for j in range(min(len(got), len(want))) if got[j] != want[j]), None)
+            rep.violation({"what": "the effects completed before an error are not exactly those R7RS's evaluation order completes",
+                           "program": forms, "form": forms[j] if j is not None else None, "expected": want, "implementation": r})
     # the whole matrix of wrong-typed arguments to builtins, each form alone on a shared interpreter (an error leaves it usable)
     tmatrix, imatrix = P.type_fault_matrix(), P.index_fault_matrix()
     matrix = tmatrix + imatrix
